@@ -34,6 +34,14 @@ class SWorld(CWorld):
     def allow(self, body, c):
         return body['file'].endswith(('NodeSorter.cpp', 'NodeSorter.hpp', 'NodeSortKey.hpp', 'NodeSortKey.cpp'))
 
+    def compare(self, m, comp, x, y):
+        body = [a for a in self.facts.asts('NodeSorter::NodeSortKeyCompare::operator()', must=False) if a.get('body') is not None]
+        if len(body) != 1:
+            raise Unsupported('NodeSortKeyCompare::operator(): %d bodies' % len(body))
+        if not isinstance(comp, Obj):
+            raise Unsupported('comparator %r' % (comp,))
+        return m.run_body(body[0], [x, y, 0][:len(body[0]['params'])], comp)
+
     def destructor(self, o):
         if isinstance(o, ClearGuard):
             return lambda g: g.fields['vec'].items.clear()          # CollectionClearGuard: clears its collection when the scope ends
@@ -67,6 +75,34 @@ class SWorld(CWorld):
                     j -= 1
                 v[j] = x
             return 0
+        if k == 'Call' and n in ('upper_bound', 'lower_bound') and len(c['args']) == 4:
+            b, e, val, comp = (m.ev(x) for x in c['args'])
+            if isinstance(b, It) and isinstance(e, It):
+                v = b.vec.items
+                lo, hi = b.i, e.i
+                while lo < hi:          # the binary search of the standard library, asking the interpreted comparator
+                    mid = (lo + hi) // 2
+                    if n == 'upper_bound':
+                        go_right = not self.compare(m, comp, val, v[mid])
+                    else:
+                        go_right = bool(self.compare(m, comp, v[mid], val))
+                    if go_right:
+                        lo = mid + 1
+                    else:
+                        hi = mid
+                return It(b.vec, lo)
+        if k == 'Call' and n == 'rotate' and len(c['args']) == 3:
+            b, mid, e = (m.ev(x) for x in c['args'])
+            if isinstance(b, It) and isinstance(mid, It) and isinstance(e, It):
+                v = b.vec.items
+                v[b.i:e.i] = v[mid.i:e.i] + v[b.i:mid.i]
+                return It(b.vec, b.i + (e.i - mid.i))
+        if k == 'Call' and n in ('merge', 'inplace_merge'):
+            raise Unsupported('std::%s: the order among equal elements it leaves is not modelled' % n)
+        if k == 'OpCall' and c.get('op') == '()' and len(c.get('args', [])) == 3:
+            f = m.ev(c['args'][0])
+            if isinstance(f, Obj) and f.cls.endswith('NodeSortKeyCompare'):
+                return self.compare(m, f, m.ev(c['args'][1]), m.ev(c['args'][2]))
         if k == 'MCall':
             tgt = m.target_obj(c)
             if isinstance(tgt, NodeListModel):
@@ -202,5 +238,42 @@ def run_rule(res, facts, tier):
                     r.violation('sort: ' + site, 'the nodes come out as %s, XSLT 1.0 10 requires %s (nodes numbered in document order)' % (got, want), common.file_line(sort))
                 else:
                     r.instances += 1
+    # a selection longer than any short-range shortcut of a sorting routine (runs of 16 / 32 sorted by insertion, then merged): many ties in both keys, not in order
+    big = 40 if not deep else 70
+    nodes = list(range(big))
+    for keys in (((0, 0), (0, 0)), ((1, 1), (0, 0)), ((0, 1), (1, 0))):
+        vals = []
+        for ki, (kn, kd) in enumerate(keys):
+            src = nvals if kn else tvals
+            vals.append([src[(i * (7 if ki == 0 else 5) + i // 9) % 3] if ki == 0 else src[(i // 13) % 2 + 1] for i in nodes])
+        w.values = vals
+        keyobjs = Vec([Obj(NS + 'NodeSortKey', {'index': i, 'number': kn, 'descending': kd}) for i, (kn, kd) in enumerate(keys)])
+        sorter = Obj(NS + 'NodeSorter', {'m_stringResultsCache': Vec([]), 'm_numberResultsCache': Vec([]), 'm_keys': keyobjs, 'm_scratchVector': Vec([])})
+        for f in kfields:
+            sorter.fields.setdefault(f, Vec([]))
+        lst = NodeListModel(nodes)
+        w.calls = 0
+        old_max = w.max_calls
+        w.max_calls = 400000
+        site = 'sort of %d nodes with many ties, keys %s' % (big, ' then '.join('%s %s' % ('number' if kn else 'text', 'descending' if kd else 'ascending') for kn, kd in keys))
+        try:
+            m = OMachine(w, {}, sorter)
+            m.fuel = 4000000
+            m.run_body(sort, ['ECTX', lst], sorter)
+            got = list(lst.items)
+        except Fault as f:
+            got = 'FAULT: %s' % f
+        except Unsupported as u:
+            raise AnalysisBroken('NodeSorter::sort outside the interpreted subset on %s: %s' % (site, u))
+        finally:
+            w.max_calls = old_max
+        want = spec_sort(nodes, keys, vals)
+        n += 1
+        if got == want:
+            r.ok(site, 'stable')
+        else:
+            firstbad = next((i for i, (g, x) in enumerate(zip(got, want)) if g != x), None) if isinstance(got, list) else None
+            r.violation(site, 'the nodes come out as %s..., XSLT 1.0 10 requires %s... (first difference at position %s): equal keys must keep document order whatever the length of the list' %
+                        (got[:12] if isinstance(got, list) else got, want[:12], firstbad), common.file_line(sort))
     r.note('%d sorts' % n)
     return r
